@@ -75,6 +75,10 @@ type params struct {
 }
 
 func (e *env) violate(key, format string, args ...any) {
+	// when serving C05 only the transmission-order oracle (and crashes) count; everything else belongs to C02
+	if e.p.prop == "C05" && !strings.HasPrefix(key, "order:") {
+		return
+	}
 	msg := fmt.Sprintf(format, args...)
 	e.viol = append(e.viol, msg)
 	if e.violKey == "" {
